@@ -253,6 +253,18 @@ def feature_functions(full: bool):
         src = _fn(name, [(n, anno(k)) for n, k in params], ret, body)
         out.append((name, src, Entry(name, params, vectors=vectors, grid=None if vectors else (grid or G1), tag=f'feat:{tag}'), needs))
 
+    # a parameter re-assigned at function level and inside every kind of nested block (no new declaration may appear)
+    for where, body in [('function', 'a = a + 1\nreturn a'), ('if', 'if a < 1:\n\ta = 1\nreturn a'), ('if-else', 'if a < 0:\n\ta = 0\nelse:\n\ta = a * 2\nreturn a'),
+                        ('for', 'for i in range(3):\n\ta = a + i\nreturn a'), ('while', 't = 0\nwhile t < 2:\n\ta = 7\n\tt += 1\nreturn a'),
+                        ('nested', 'if a < 5:\n\tfor i in range(2):\n\t\ta = 9\nreturn a'), ('try', 'try:\n\ta = 4\nexcept Exception as e:\n\ta = 5\nreturn a'),
+                        ('clamp', 'lo = 0\nhi = 3\nif a < lo:\n\ta = lo\nif a > hi:\n\ta = hi\nreturn a')]:
+        add(f'param-reassign:{where}', body)
+    # mixed int/float chains through an inferred declaration (the declared type decides whether the value is truncated)
+    import itertools as _it
+    for ops in _it.product(['+', '-', '*'], repeat=2):
+        for operands in [('a', 'g', 'a'), ('a', 'a', 'g'), ('g', 'a', 'a'), ('a', '1.5', 'a'), ('2', 'g', 'a')]:
+            expr = f'{operands[0]} {ops[0]} {operands[1]} {ops[1]} {operands[2]}'
+            add(f'mixed-chain:{ops[0]}{ops[1]}', f'g = a * 0.5 + 0.25\nx = {expr}\nreturn x', ret='float', grid=[[-2, 0, 1, 3]])
     # declaration forms x initialiser kinds
     inits = [('list-lit', 'list[int]', '[a, 2]'), ('list-mul', 'list[int]', '[7] * a'), ('list-mul-zero', 'list[int]', '[0] * a'), ('list-mul-var', 'list[int]', '[a] * 2'),
              ('list-comp', 'list[int]', '[i * 2 for i in range(a)]'), ('list-copy', 'list[int]', 'XS.copy()'), ('dict-lit', 'dict[str, int]', "{'k': a}"),
